@@ -16,7 +16,8 @@ from engines.x86sym import orcentry
 from engines.x86sym.machine import byte_name
 from engines import oracle as oracle_mod
 
-ENGINE_VERSION = 'x86check-11'
+ENGINE_VERSION = 'x86check-10'
+FP_VERSION = 'fp-11'          # float data path (classification of flush-to-zero disagreements): only results computed with fp_data depend on it
 CALLEE_SAVED = ('rbx', 'rbp', 'r12', 'r13', 'r14', 'r15')
 
 SSE_BITS = {'sse2': 1, 'sse3': 2, 'ssse3': 4, 'sse4.1': 8, 'sse4.2': 16, 'avx': 1 << 10, 'avx2': 1 << 11}
@@ -820,6 +821,8 @@ def Region_key(off, i):
 def cache_key(prog, bounds):
     h = hashlib.sha256()
     h.update(ENGINE_VERSION.encode())
+    if isinstance(bounds, list) and len(bounds) >= 3 and bounds[2]:
+        h.update(FP_VERSION.encode())
     h.update(json.dumps([prog['name'], prog['target'], prog['flags'], prog['orccode']['code'], prog['orccode']['insns'], prog['orccode']['vars'],
                          prog.get('recipe', ''), bounds], sort_keys=True).encode())
     return h.hexdigest()
